@@ -91,11 +91,8 @@ def encOutBase : Out → String
   | .reconnect w srv => "R:" ++ (if w then "1" else "0") ++ ":" ++ (match srv with | none => "~" | some s => encServer s)
   | .closed => "X"
   | .connected srv tls v => "C:" ++ encServer srv ++ ":" ++ (if tls then "1" else "0") ++ ":" ++ (if v then "1" else "0")
-  | .wire _ => "W?"
 
-def encOut : Out → String
-  | .wire ms => "W(" ++ ";".intercalate (ms.map encOutBase) ++ ")"
-  | o => encOutBase o
+def encOut : Out → String := encOutBase
 
 def encOuts (l : List Out) : String := if l.isEmpty then "-" else ";".intercalate (l.map encOut)
 
@@ -123,8 +120,7 @@ structure DState where
   cfg : Option Cfg := none
   st : St := {}
 
-def drain (s : St) : St × List Out :=
-  ({ s with fastq := [], slowq := [], ev := [] }, s.fastq ++ s.slowq ++ s.ev)
+def obsR (r : StepResult) : String := observe r.st (r.fast ++ r.slow ++ r.events) r.exc
 
 def stepD (d : DState) : List String → DState × String
   | "new" :: fs =>
@@ -132,20 +128,20 @@ def stepD (d : DState) : List String → DState × String
     | some cfg, some db, some stub =>
       let base : St := { wanted := if fBool fs "leak" then Gen.Conn.requestCapabilities ++ [sSasl] else Gen.Conn.requestCapabilities,
                          db := db, now := fNat fs "now", drv := { current := stub } }
-      let (s, outs) := drain (initSt cfg base)
-      ({ cfg := some cfg, st := s }, observe s outs none)
+      let r := start cfg base
+      ({ cfg := some cfg, st := r.st }, obsR r)
     | _, _, _ => (d, "bad-op")
   | ["msg", c, a, n] =>
     match d.cfg, dec c, decList a, dec n with
     | some cfg, some c, some a, some n =>
-      let (s, outs, exc) := step cfg d.st ⟨c, a, n⟩
-      ({ d with st := s }, observe s outs exc)
+      let r := step cfg d.st ⟨c, a, n⟩
+      ({ d with st := r.st }, obsR r)
     | _, _, _, _ => (d, "bad-op")
   | ["reset"] =>
     match d.cfg with
     | some cfg =>
-      let (s, outs) := drain (ircReset cfg d.st)
-      ({ d with st := s }, observe s outs none)
+      let r := applyOp cfg d.st .reset
+      ({ d with st := r.st }, obsR r)
     | none => (d, "bad-op")
   | _ => (d, "bad-op")
 
